@@ -524,3 +524,33 @@ func (n *Net) BlocksReachable(a, b int) bool {
 	defer n.mu.Unlock()
 	return !n.cut[pair(a, b)] && !n.blockCut[pair(a, b)]
 }
+
+// PublishedCount returns how many topic messages of replica `from` have been logged so far
+// (one per recipient, or one with To = -1 when nobody was connected).
+func (n *Net) PublishedCount(from int) int {
+	n.mu.Lock()
+	defer n.mu.Unlock()
+	k := 0
+	for _, m := range n.Log {
+		if m.Kind == "topic" && m.From == from {
+			k++
+		}
+	}
+	return k
+}
+
+// Fanout returns the number of log records one publication of `from` on `topic` produces now.
+func (n *Net) Fanout(topic string, from int) int {
+	n.mu.Lock()
+	defer n.mu.Unlock()
+	k := 0
+	for b := range n.subs[topic] {
+		if b != from && !n.cut[pair(from, b)] {
+			k++
+		}
+	}
+	if k == 0 && n.AlwaysPeers {
+		return 1
+	}
+	return k // 0: the store sees no peer on the topic and does not publish at all
+}
